@@ -46,7 +46,25 @@ def run_opensmt(text, io="file", timeout=20, binary=None, chunks=None, env=None,
         data = text.encode()
         to = False
         try:
-            if chunks:
+            if chunks and chunks[0] == "cuts":
+                # explicit cut positions; a pause after every piece so that the reader's read() returns exactly there
+                prev = 0
+                for c in list(chunks[1:]) + [len(data)]:
+                    if c <= prev or c > len(data):
+                        continue
+                    try:
+                        p.stdin.write(data[prev:c]); p.stdin.flush()
+                    except BrokenPipeError:
+                        break
+                    prev = c
+                    time.sleep(0.003)
+                try:
+                    p.stdin.close()
+                except BrokenPipeError:
+                    pass
+                out = p.stdout.read(); err = p.stderr.read()
+                p.wait(timeout=timeout)
+            elif chunks:
                 pos = 0
                 ci = 0
                 while pos < len(data):
